@@ -368,6 +368,88 @@ class HierDriver(explore.Driver):
                 tuple(st.window), tuple(tuple(sorted(e)) for e in st.excl))
 
 
+def _late_child_cases(seed):
+    """Children that are looked at while out of step with their parent:
+    created without an initial refresh, or queried between a parent edit
+    and the refresh.  After the refresh of the youngest member everything
+    agrees with the parent's filtered events again."""
+    import dclab
+    from dclab.rtdc_dataset.fmt_hierarchy import RTDC_Hierarchy
+    out = []
+    data = root_data(seed)
+    n = len(data["deform"])
+    feat = FEATS[0]
+    vals = np.asarray(data[feat])
+    order = np.sort(vals)
+
+    def verdict(child, parent, scenario):
+        sel = np.flatnonzero(parent.filter.all)
+        case = {"kind": "late-child", "scenario": scenario, "seed": seed}
+        try:
+            ok = len(child) == len(sel) and gen.arrays_equal(
+                child[feat][:], vals[sel]) and \
+                child.filter.all.size == len(sel)
+            detail = (f"len(child)={len(child)}, parent selects "
+                      f"{len(sel)}, filter array {child.filter.all.size}")
+            gch = dclab.new_dataset(child)
+            ok = ok and len(gch) == int(child.filter.all.sum())
+        except BaseException as e:
+            ok = False
+            detail = f"{type(e).__name__}: {e}"
+        if not ok:
+            out.append(violation(
+                HB + ".apply_filter", "wrong-length", case,
+                f"{scenario}: {detail}", {"scenario": scenario}))
+    for touch_len in (False, True):
+        for second_edit in (False, True):
+            # A: no refresh at creation
+            par = dclab.new_dataset(dict(root_data(seed)))
+            par.config["filtering"][feat + " min"] = float(order[2])
+            par.config["filtering"][feat + " max"] = float(order[-1]) + 1
+            par.apply_filter()
+            ch = RTDC_Hierarchy(par, apply_filter=False)
+            if touch_len:
+                try:
+                    len(ch)
+                except BaseException:
+                    pass
+            if second_edit:
+                par.config["filtering"][feat + " min"] = float(order[4])
+            ch.rejuvenate()
+            verdict(ch, par, f"created-without-refresh touch_len="
+                    f"{touch_len} second_edit={second_edit}")
+            # B: queried between a parent-only apply and the refresh
+            par = dclab.new_dataset(dict(root_data(seed)))
+            ch = dclab.new_dataset(par)
+            par.config["filtering"][feat + " min"] = float(order[3])
+            par.config["filtering"][feat + " max"] = float(order[-1]) + 1
+            par.apply_filter()
+            if touch_len:
+                try:
+                    len(ch)
+                    ch[feat][:]
+                except BaseException:
+                    pass
+            if second_edit:
+                par.config["filtering"].pop(feat + " min")
+                par.config["filtering"].pop(feat + " max")
+            try:
+                ch.rejuvenate()
+            except BaseException as e:
+                out.append(violation(
+                    HB + ".apply_filter", "exception",
+                    {"kind": "late-child", "scenario": "B", "seed": seed},
+                    f"refresh after a parent-only apply (touch_len="
+                    f"{touch_len}, reverted={second_edit}): "
+                    f"{type(e).__name__}: {e}",
+                    {"scenario": "parent-applied-first",
+                     "exc": type(e).__name__}))
+                continue
+            verdict(ch, par, f"parent-applied-first touch_len={touch_len} "
+                    f"reverted={second_edit}")
+    return out
+
+
 def run(ctx):
     parts = []
     viols = []
@@ -407,7 +489,9 @@ def run(ctx):
                                 log=ctx.log)
         parts.append((name, stats))
         viols.extend(vs)
+    viols.extend(_late_child_cases(ctx.seed))
     cov = explore.merge_stats(parts)
+    cov["late_child_cases"] = 8
     cov["rule"] = ("BFS over histories of range edits / manual exclusions / "
                    "temporary features on every level, root frame-rate "
                    "change, each followed (dev 0) or not (dev +1) by a "
@@ -426,6 +510,8 @@ def run(ctx):
 
 
 def replay(case, ctx):
+    if case.get("kind") == "late-child":
+        return _late_child_cases(case["seed"])
     c = case["config"]
     drv = HierDriver(levels=c["levels"], seed=c["seed"],
                      root=c.get("root", "dict"), scratch=ctx.scratch,
